@@ -429,6 +429,28 @@ func c12Roundtrip(res *world.Result, logf func(string, ...interface{}), h *world
 	}
 }
 
+// pipelined: now and then another request is read (and dropped) between reading a request
+// and answering it, as a server does that reads ahead; the responder of the first request
+// must not be affected by what the library reuses for the second.
+func pipelined(res *world.Result) {
+	if !simrt.Flip("cs.pipelined", 0.3) {
+		return
+	}
+	n := 1 + ch("cs.pipelined-n", 2)
+	for i := 0; i < n; i++ {
+		r2 := genRequest()
+		b2 := r2.encode()
+		full := simio.Plan{TruncAt: -1, ErrAt: -1}
+		if ch("cs.pipelined-api", 2) == 0 {
+			decodeRequest(r2.Type, b2, full)
+		} else {
+			r, _ := simio.NewReader(b2, full)
+			readRequest(r2.Type, r, nil)
+		}
+	}
+	res.Count("c12.requests-answered-after-reading-ahead", 1)
+}
+
 func c12ClientServer(res *world.Result, logf func(string, ...interface{}), h *world.Hasher, overPipe bool) {
 	req := genRequest()
 	// the server's expectation: mostly the request's own type
@@ -488,6 +510,7 @@ func c12ClientServer(res *world.Result, logf func(string, ...interface{}), h *wo
 		tag = "DecodeRequest"
 		plan := simio.GenPlan(len(b), false)
 		out = decodeRequest(et, b, plan)
+		pipelined(res)
 		if out.ok {
 			w := simio.NewWriter(-1)
 			if r, ok := out.resp.(binary.Responder); ok {
@@ -509,6 +532,7 @@ func c12ClientServer(res *world.Result, logf func(string, ...interface{}), h *wo
 		r, raw := simio.NewReader(data, plan)
 		raw.Budget = budgetFor(len(data))
 		out = readRequest(et, r, raw)
+		pipelined(res)
 		if out.ok {
 			w := simio.NewWriter(-1)
 			if rw, ok := out.resp.(stream.ResponseWriter); ok {
